@@ -59,6 +59,8 @@ pub enum Strategy {
     /// first `prefix` draws are a constant byte / counter, then honest
     ConstPrefix { byte: u8, prefix: u64 },
     CounterPrefix { prefix: u64 },
+    /// the first 40 bytes drawn (the salt) are given; everything else honest
+    ForcedSalt { salt: Vec<u8> },
 }
 
 impl Strategy {
@@ -70,6 +72,7 @@ impl Strategy {
             Strategy::ZeroBase { groups } => format!("zero-base-{}g", groups),
             Strategy::ConstPrefix { byte, prefix } => format!("const-{:02x}-{}", byte, prefix),
             Strategy::CounterPrefix { prefix } => format!("counter-{}", prefix),
+            Strategy::ForcedSalt { .. } => "forced-salt".into(),
         }
     }
 }
@@ -113,6 +116,7 @@ impl ScriptedRng {
             Strategy::ZeroBase { groups } => group < *groups,
             Strategy::ConstPrefix { prefix, .. } => self.total_u32 < *prefix,
             Strategy::CounterPrefix { prefix } => self.total_u32 < *prefix,
+            Strategy::ForcedSalt { .. } => false,
         }
     }
     fn draw_byte(&mut self) -> u8 {
@@ -156,7 +160,7 @@ impl ScriptedRng {
                 }
                 Strategy::ConstPrefix { byte, .. } => byte,
                 Strategy::CounterPrefix { .. } => self.total_u32 as u8,
-                Strategy::Honest => honest as u8,
+                Strategy::Honest | Strategy::ForcedSalt { .. } => honest as u8,
             }
         };
         self.total_u32 += 1;
@@ -183,6 +187,11 @@ impl RngCore for ScriptedRng {
                 for d in dest.iter_mut() {
                     *d = byte;
                 }
+            }
+        }
+        if let Strategy::ForcedSalt { salt } = &self.strategy {
+            if self.fills == 0 && dest.len() == salt.len() {
+                dest.copy_from_slice(salt);
             }
         }
         if self.first_fill.is_none() {
